@@ -4,6 +4,7 @@ package main
 // lemma harness of the same property proves on the callee's real SSA in the same run.
 
 import (
+	"strings"
 	"go/token"
 	"go/types"
 	"sort"
@@ -129,7 +130,24 @@ func goReservedIdents() []string {
 var concreteMu sync.Mutex
 var concreteEx *Explorer
 
-func concreteCallString(fnName string, arg string) (res string, ok bool) {
+var concreteMemo sync.Map
+
+func concreteCallString(fnName string, arg string) (string, bool) {
+	key := fnName + "\x00" + arg
+	if v, ok := concreteMemo.Load(key); ok {
+		r := v.([2]string)
+		return r[0], r[1] == "ok"
+	}
+	res, ok := concreteCallStringUncached(fnName, arg)
+	st := "fail"
+	if ok {
+		st = "ok"
+	}
+	concreteMemo.Store(key, [2]string{res, st})
+	return res, ok
+}
+
+func concreteCallStringUncached(fnName string, arg string) (res string, ok bool) {
 	concreteMu.Lock()
 	ex := concreteEx
 	concreteMu.Unlock()
@@ -204,6 +222,18 @@ func autoNative(name string) func(args []string) (string, bool) {
 		return nil
 	}
 	return func(args []string) (res string, ok bool) {
+		mkey := name + "\x00" + strings.Join(args, "\x00")
+		if v, hit := concreteMemo.Load(mkey); hit {
+			r := v.([2]string)
+			return r[0], r[1] == "ok"
+		}
+		defer func() {
+			st := "fail"
+			if ok {
+				st = "ok"
+			}
+			concreteMemo.Store(mkey, [2]string{res, st})
+		}()
 		concreteMu.Lock()
 		ex := concreteEx
 		concreteMu.Unlock()
